@@ -189,6 +189,16 @@ def const_values(expr, fn_node, _seen=()):
         if expr.id in _seen:
             return set()
         seen = _seen + (expr.id,)
+        # a loop variable read inside its own loop takes that loop's values only (the same name may serve several loops)
+        loops = [n for n in ast.walk(fn_node) if isinstance(n, ast.For) and any(isinstance(x, ast.Name) and x.id == expr.id for x in ast.walk(n.target))
+                 and any(x is expr for b in n.body for x in ast.walk(b))]
+        if loops:
+            inner = min(loops, key=lambda n: sum(1 for _ in ast.walk(n)))
+            cv = _target_values(inner.target, inner.iter, expr.id, fn_node, seen)
+            rebinds = any(isinstance(a, (ast.Assign, ast.AugAssign)) and any(isinstance(t, ast.Name) and t.id == expr.id for t in (a.targets if isinstance(a, ast.Assign) else [a.target]))
+                          for b in inner.body for a in ast.walk(b))
+            if cv is not False and not rebinds:
+                return cv
         out, found = set(), False
         for n in ast.walk(fn_node):
             if isinstance(n, (ast.Assign, ast.AnnAssign)) and n.value is not None:
